@@ -38,6 +38,22 @@ def run(ctx):
                     ctx.add_violation("lockorder:" + parts[1].split()[1], "locks acquired out of ascending inode order: " + parts[-1][:200],
                                       {"how": "lock/commit events of one request recorded by the fstxn hooks (harness %s)" % ("seq -locks" if which == "sequential" else "conc"),
                                        "trace": parts[-1], "trace_prefix": seqlib.context_before(ls, "# " + " :: ".join(parts[1:]))})
+        # directed histories of recorded findings that end in a request which never returns
+        import os
+        ptr = os.path.join(ctx.scratch, "probe.txt")
+        prc, perr = ctx.harness(["probe", "-watchdog", "4" if ctx.tier == "quick" else "10"], ptr, timeout=300)
+        plines = open(ptr).read().splitlines() if prc == 0 else None
+        if plines is None:
+            ctx.breaks.append(Break("correspondence", "harness probe failed to run", perr[-2000:]))
+        else:
+            key = None
+            for l in plines:
+                if l.startswith("# probe "):
+                    key = l.split()[2]
+                elif l.startswith("# HANG") and key:
+                    ctx.add_violation("hang:" + key, l[2:300], {"how": "harness probe: directed history on a fresh server, watchdog per request",
+                                                                "history": [x for x in plines[max(0, plines.index(l) - 8):plines.index(l) + 1]]})
+            ctx.cov["evaluations"] += len([l for l in plines if l.startswith("# probe ")])
         if lines is not None:
             ops = [l for l in lines if l and not l.startswith("#") and not l.startswith("config")]
             ctx.cov["samples"].append(ops[0][:200])
